@@ -5,6 +5,7 @@
 // Header lines of the script (ignored here except `table`): `env ...`, `table <key> <text> <comment> <preedit>`
 #include "hcommon.h"
 #include <map>
+#include <set>
 #include <chrono>
 #include <thread>
 #include <sstream>
@@ -20,6 +21,7 @@
 #include <rime/translation.h>
 #include <rime/translator.h>
 #include <rime/schema.h>
+#include <rime/config.h>
 
 using namespace vh;
 
@@ -29,9 +31,13 @@ static std::map<std::string, std::vector<Row>> g_table;
 // table-driven translator registered through the public registry (DESIGN §2)
 class VtTranslator : public rime::Translator {
  public:
-  explicit VtTranslator(const rime::Ticket& t) : rime::Translator(t) {}
+  // `vt_translator@name` reads `name/tag` (default "abc"): one translator per tag, all over the same table
+  explicit VtTranslator(const rime::Ticket& t) : rime::Translator(t) {
+    if (t.schema && t.schema->config()) t.schema->config()->GetString(name_space_ + "/tag", &tag_);
+  }
+  std::string tag_ = "abc";
   rime::an<rime::Translation> Query(const std::string& input, const rime::Segment& seg) override {
-    if (!seg.HasTag("abc")) return nullptr;
+    if (!seg.HasTag(tag_)) return nullptr;
     auto tr = rime::New<rime::FifoTranslation>();
     for (size_t n = input.size(); n >= 1; --n) {
       auto it = g_table.find(input.substr(0, n));
@@ -99,7 +105,7 @@ static void observe(RimeSessionId s, int ret, const std::string& text) {
     api->free_context(&ctx);
     // the segment list itself (never reported to a client): |composition input| and, per segment,
     // start-end-length-status-selected_index-tags (a=abc r=raw p=partial g=paging e=selected_before_editing h=phony
-    // l=placeholder u=punct d=punct_number; other tags are not part of the model) — compared with the model and checked for geometry
+    // l=placeholder u=punct d=punct_number; other tags: `+<bytes of the name in decimal>`) — compared with the model and checked for geometry
     {
       auto sess = rime::Service::instance().GetSession(s);
       if (sess && sess->context()) {
@@ -119,6 +125,15 @@ static void observe(RimeSessionId s, int ret, const std::string& text) {
           if (g.HasTag("placeholder")) t += "l";
           if (g.HasTag("punct")) t += "u";
           if (g.HasTag("punct_number")) t += "d";   // never set in the modelled schemas (digit separators off)
+          // every other tag (the recognizer's pattern names, the affix segmentor's tags), in the order of the std::set:
+          // `+` and the bytes of the name in decimal joined by `.` (driver: showTags)
+          static const std::set<std::string> kKnown = {"abc", "raw", "partial", "paging", "selected_before_editing", "phony",
+                                                       "placeholder", "punct", "punct_number"};
+          for (const std::string& name : g.tags) {
+            if (kKnown.count(name)) continue;
+            t += "+";
+            for (size_t q = 0; q < name.size(); ++q) { if (q) t += "."; t += std::to_string((unsigned char)name[q]); }
+          }
           o << g.start << "-" << g.end << "-" << g.length << "-" << (int)g.status << "-" << g.selected_index << "-" << (t.empty() ? "0" : t);
         }
         // the options the modelled components read or the key binder's option actions write (driver: reportedOptions)
